@@ -344,6 +344,9 @@ func genHostileTx(t *rapid.T, w *sim.World, r *sim.Replica, inBody []*types.Tran
 			}
 		}
 	}
+	// only what can be decoded from bytes a peer sends is in the domain: normalise the unsigned fields through the
+	// wire encoding first, sign what a receiver will see, and pass the signed object through the encoding again
+	tx = roundTripTx(t, tx)
 	// signature: a real key of the world unless drawn otherwise
 	switch pick(t, "sigClass", 24) {
 	case 0:
@@ -371,7 +374,6 @@ func genHostileTx(t *rapid.T, w *sim.World, r *sim.Replica, inBody []*types.Tran
 		}
 		tx = signed
 	}
-	// only what can be decoded from bytes a peer sends is in the domain
 	wire, err := tx.ToBytes()
 	if err != nil {
 		t.Fatalf("encode tx: %v", err)
@@ -383,6 +385,18 @@ func genHostileTx(t *rapid.T, w *sim.World, r *sim.Replica, inBody []*types.Tran
 	c.tx, c.wire = dec, wire
 	c.typ = dec.Type
 	return c
+}
+
+func roundTripTx(t *rapid.T, tx *types.Transaction) *types.Transaction {
+	wire, err := tx.ToBytes()
+	if err != nil {
+		t.Fatalf("encode tx: %v", err)
+	}
+	dec := new(types.Transaction)
+	if err := dec.FromBytes(wire); err != nil {
+		t.Fatalf("own encoding of a tx does not decode: %v", err)
+	}
+	return dec
 }
 
 // ---------------------------------------------------------------------------
